@@ -1,0 +1,13 @@
+//go:build verif
+// +build verif
+
+package capnp
+
+// Read-only view of a list's element layout for the verification harness in /verif
+// (property C20 exports value trees as stored). Compiled only with the build tag "verif".
+
+// VerifListInfo reports the element size of l and whether it is a bit list or a
+// composite list.
+func VerifListInfo(l List) (dataSize Size, pointerCount uint16, bitList, composite bool) {
+	return l.size.DataSize, l.size.PointerCount, l.flags&isBitList != 0, l.flags&isCompositeList != 0
+}
